@@ -13,6 +13,7 @@ package core
 import (
 	"fmt"
 	"go/token"
+	"go/types"
 	"strings"
 
 	"golang.org/x/tools/go/ssa"
@@ -593,11 +594,11 @@ func resultOf(v ssa.Value, at ssa.Instruction) (ssa.CallInstruction, int, bool) 
 }
 
 // evalCond evaluates a branch condition under the facts about helper returns taken on this path.
-func evalCond(cond ssa.Value, at ssa.Instruction, facts [2]rfact) (val, known bool) {
+func evalCond(cond ssa.Value, at ssa.Instruction, facts [2]rfact, pf *pathFacts) (val, known bool) {
 	switch x := cond.(type) {
 	case *ssa.UnOp:
 		if x.Op == token.NOT {
-			v, k := evalCond(x.X, at, facts)
+			v, k := evalCond(x.X, at, facts, pf)
 			return !v, k
 		}
 	case *ssa.BinOp:
@@ -625,7 +626,7 @@ func evalCond(cond ssa.Value, at ssa.Instruction, facts [2]rfact) (val, known bo
 			}
 			// comparison of a boolean result with a constant
 			if b, ok := ConstBool(x.Y); ok {
-				if v, k := evalCond(x.X, at, facts); k {
+				if v, k := evalCond(x.X, at, facts, pf); k {
 					return (v == b) == (x.Op == token.EQL), true
 				}
 			}
@@ -635,6 +636,13 @@ func evalCond(cond ssa.Value, at ssa.Instruction, facts [2]rfact) (val, known bo
 	if c, idx, ok := resultOf(cond, at); ok {
 		for _, f := range facts {
 			if f.call == c && f.ret != nil && idx < len(f.ret.Results) {
+				// the value returned is a boolean the path already knows (a short-circuit phi entered from a known side)
+				if pf != nil {
+					rv, neg := CondPolarity(f.ret.Results[idx])
+					if b, ok := pf.bools[rv]; ok {
+						return b != neg, true
+					}
+				}
 				vals := ResultValues(f.ret, idx)
 				if len(vals) == 0 {
 					return false, false
@@ -721,7 +729,20 @@ func BlockReachableAvoiding(fn *ssa.Function, blk *ssa.BasicBlock, blocked map[E
 
 var wantBlock *ssa.BasicBlock
 
+// reachItemLimit bounds one path-sensitive exploration. Path facts multiply the states of a large function (every
+// remembered boolean doubles them); beyond the limit the exploration is repeated without path facts, which only adds
+// paths - "reachable" becomes an over-approximation, never a miss.
+const reachItemLimit = 150000
+
 func reachRegion(fn *ssa.Function, from ssa.Instruction, target func(ssa.Instruction) bool, blocked map[Edge]bool, barrier func(ssa.Instruction) bool, isFact func(ssa.Value) bool, known string, drop func(ssa.Instruction) bool) ([]*ssa.BasicBlock, bool) {
+	path, reached, overflow := reachRegion1(fn, from, target, blocked, barrier, isFact, known, drop, true)
+	if overflow {
+		path, reached, _ = reachRegion1(fn, from, target, blocked, barrier, isFact, known, drop, false)
+	}
+	return path, reached
+}
+
+func reachRegion1(fn *ssa.Function, from ssa.Instruction, target func(ssa.Instruction) bool, blocked map[Edge]bool, barrier func(ssa.Instruction) bool, isFact func(ssa.Value) bool, known string, drop func(ssa.Instruction) bool, withFacts bool) ([]*ssa.BasicBlock, bool, bool) {
 	rg := RegionOf(fn)
 	defer func() { curPath, curStack = nil, nil }()
 	var items []ritem
@@ -767,12 +788,15 @@ func reachRegion(fn *ssa.Function, from ssa.Instruction, target func(ssa.Instruc
 		return false
 	}
 	for qi := 0; qi < len(items); qi++ {
+		if withFacts && len(items) > reachItemLimit {
+			return nil, false, true
+		}
 		it := items[qi]
 		cur := it.b.Parent()
 		curPath = it.pf
 		curStack = it.stack
 		if wantBlock != nil && it.b == wantBlock && it.start == 0 {
-			return path(qi), true
+			return path(qi), true, false
 		}
 		stopped := false
 		for i := it.start; i < len(it.b.Instrs) && !stopped; i++ {
@@ -803,7 +827,7 @@ func reachRegion(fn *ssa.Function, from ssa.Instruction, target func(ssa.Instruc
 				break
 			}
 			if target(in) {
-				return path(qi), true
+				return path(qi), true, false
 			}
 			if barrier != nil && barrier(in) {
 				stopped = true
@@ -835,9 +859,12 @@ func reachRegion(fn *ssa.Function, from ssa.Instruction, target func(ssa.Instruc
 		// successors, pruned by what is known about helper results
 		feasible := [2]bool{true, true}
 		if ifi := BlockIf(it.b); ifi != nil {
-			v, known := evalCondPath(ifi.Cond, it.pf)
+			v, known := false, false
+			if withFacts {
+				v, known = evalCondPath(ifi.Cond, it.pf)
+			}
 			if !known && (it.facts[0].call != nil || it.facts[1].call != nil) {
-				v, known = evalCond(ifi.Cond, ifi, it.facts)
+				v, known = evalCond(ifi.Cond, ifi, it.facts, it.pf)
 			}
 			if known {
 				if v {
@@ -874,15 +901,19 @@ func reachRegion(fn *ssa.Function, from ssa.Instruction, target func(ssa.Instruc
 					}
 				}
 			}
-			npf, okE := learnEdge(rg, it.pf, Edge{it.b, si})
-			if !okE {
-				continue // the edge contradicts what this path has already established
+			npf := it.pf
+			if withFacts {
+				var okE bool
+				npf, okE = learnEdge(rg, it.pf, Edge{it.b, si})
+				if !okE {
+					continue // the edge contradicts what this path has already established
+				}
+				npf = enterBlock(npf, it.b, s)
 			}
-			npf = enterBlock(npf, it.b, s)
 			push(ritem{stack: it.stack, b: s, start: 0, facts: it.facts, k: nk, pf: npf, parent: qi})
 		}
 	}
-	return nil, false
+	return nil, false, false
 }
 
 // ---------- generic path exploration with a client-defined abstract state ----------
@@ -990,7 +1021,7 @@ func (x *Explorer) Run(init string) {
 		if ifi := BlockIf(it.b); ifi != nil {
 			v, known := evalCondPath(ifi.Cond, it.pf)
 			if !known && (it.facts[0].call != nil || it.facts[1].call != nil) {
-				v, known = evalCond(ifi.Cond, ifi, it.facts)
+				v, known = evalCond(ifi.Cond, ifi, it.facts, it.pf)
 			}
 			if known {
 				if v {
@@ -1020,4 +1051,95 @@ func (x *Explorer) Run(init string) {
 			push(ritem{stack: it.stack, b: s, start: 0, facts: it.facts, k: ns, pf: npf, parent: qi})
 		}
 	}
+}
+
+// AddrRoots resolves an address to the objects it can be rooted in: field and element steps are stripped, a parameter
+// of an expanded helper stands for the arguments at all its call sites in the region (a recursive function handing its
+// own parameter on to itself adds nothing), a captured variable for its binding, a load of a pointer variable for what
+// was stored there. What cannot be resolved further is returned as it is.
+func (r *Region) AddrRoots(v ssa.Value) []ssa.Value {
+	var out []ssa.Value
+	seen := map[ssa.Value]bool{}
+	var visit func(v ssa.Value, depth int)
+	visit = func(v ssa.Value, depth int) {
+		v = Strip(v)
+		if seen[v] || depth > 12 {
+			return
+		}
+		seen[v] = true
+		switch x := v.(type) {
+		case *ssa.FieldAddr:
+			visit(x.X, depth+1)
+			return
+		case *ssa.IndexAddr:
+			visit(x.X, depth+1)
+			return
+		case *ssa.Phi:
+			for _, e := range x.Edges {
+				visit(e, depth+1)
+			}
+			return
+		case *ssa.Parameter:
+			g := x.Parent()
+			if g != nil && g != r.Root && r.in[g] && len(r.sites[g]) > 0 {
+				idx := -1
+				for j, p := range g.Params {
+					if p == x {
+						idx = j
+					}
+				}
+				n := 0
+				for _, cs := range r.sites[g] {
+					if a := ArgForParam(cs, idx); a != nil {
+						visit(a, depth+1)
+						n++
+					}
+				}
+				if n > 0 {
+					return
+				}
+			}
+		case *ssa.FreeVar:
+			g := x.Parent()
+			if g != nil && g.Parent() != nil {
+				var bound ssa.Value
+				Instrs(g.Parent(), func(in ssa.Instruction) {
+					if mc, ok := in.(*ssa.MakeClosure); ok && mc.Fn == ssa.Value(g) {
+						for j, fv := range g.FreeVars {
+							if fv == x && j < len(mc.Bindings) {
+								bound = mc.Bindings[j]
+							}
+						}
+					}
+				})
+				if bound != nil {
+					visit(bound, depth+1)
+					return
+				}
+			}
+		case *ssa.UnOp:
+			if x.Op == token.MUL {
+				if al, ok := x.X.(*ssa.Alloc); ok {
+					if _, isPtr := al.Type().(*types.Pointer).Elem().Underlying().(*types.Pointer); isPtr {
+						vals := storedValues(al)
+						if len(vals) > 0 {
+							for _, sv := range vals {
+								visit(sv, depth+1)
+							}
+							return
+						}
+					}
+				}
+				if srcs, ok := r.LocalFieldSources(x); ok && len(srcs) > 0 {
+					for _, sv := range srcs {
+						visit(sv, depth+1)
+					}
+					return
+				}
+			}
+		}
+		out = append(out, v)
+	}
+	visit(v, 0)
+	return out
 }
